@@ -3,6 +3,7 @@
 package interp
 
 import (
+	"encoding/base64"
 	"fmt"
 	"go/constant"
 	"go/token"
@@ -67,7 +68,34 @@ func New(prog *ssa.Program) *Interp {
 		in.errorStringPtr = types.NewPointer(p.Type("errorString").Object().Type())
 	}
 	registerAll(in)
+	in.initStdGlobals()
 	return in
+}
+
+// initStdGlobals gives a few standard-library globals their values (the std package
+// initialisers themselves are not interpreted).
+func (in *Interp) initStdGlobals() {
+	setErr := func(pkg, name, msg string) {
+		p := in.Prog.ImportedPackage(pkg)
+		if p == nil || in.errorStringPtr == nil {
+			return
+		}
+		if g := p.Var(name); g != nil {
+			*in.global(g) = Iface{T: in.errorStringPtr, V: ptrTo(Struct{msg})}
+		}
+	}
+	setErr("context", "Canceled", "context canceled")
+	setErr("context", "DeadlineExceeded", "context deadline exceeded")
+	setErr("io", "EOF", "EOF")
+	setErr("io", "ErrUnexpectedEOF", "unexpected EOF")
+	setErr("database/sql", "ErrNoRows", "sql: no rows in result set")
+	if p := in.Prog.ImportedPackage("encoding/base64"); p != nil {
+		for name, enc := range map[string]*base64.Encoding{"StdEncoding": base64.StdEncoding, "URLEncoding": base64.URLEncoding, "RawStdEncoding": base64.RawStdEncoding, "RawURLEncoding": base64.RawURLEncoding} {
+			if g := p.Var(name); g != nil {
+				*in.global(g) = ptrTo(Native{enc})
+			}
+		}
+	}
 }
 
 // ---------- abort kinds ----------
